@@ -22,8 +22,15 @@ LEVEL_TEXT = ("Proof (kernel-checked, all inputs): the number test's quantiles a
               "cells with status 'undersampled' (or not-valid / no result when no observed event is left), and no result "
               "ever carries -inf with status 'normal'. Tied to the code by a correspondence of every test's full result "
               "record with the Lean model run at Float, plus a direct oracle recomputing every statistic from the "
-              "definitions without NumPy.")
-LEVEL_NOTE = ("The theorems are over the reals; rounding of log/log10/loggamma and of float sums is not modelled (compared to "
+              "definitions without NumPy. Also proved: the resampling step of all three resampled variants for every sequence "
+              "of uniform numbers / integers (count conservation, support, loss of events beyond max+10 in the full "
+              "calculation), history-freeness of every session of the six tests on one forecast object, and the two parked "
+              "defect candidates as theorems about the faithful model.")
+LEVEL_NOTE = ("Which form the signal of an undefined statistic takes (no result / not-valid with (None, None) or (-1, -1)) and how "
+              "the implementation phrases its calls to numpy.random are NOT judged: draws are recorded in index space together "
+              "with the probabilities (uniform numbers / integers / multinomial counts as well); a recording the harness cannot "
+              "interpret is counted (draws-uninterpretable / draws-not-observable) and the implementation-independent checks "
+              "remain. The theorems are over the reals; rounding of log/log10/loggamma and of float sums is not modelled (compared to "
               "1e-9). numpy.random.choice / numpy.histogram draws of the resampled tests are recorded and fed to the model; "
               "the resampling step itself (probs = union/N_u, inverse-CDF search, bin centres, numpy.histogram) is modelled "
               "in Soft64 with the uniform numbers as input (Model/Resample.lean: count conservation and support proved for "
@@ -49,6 +56,13 @@ THEOREMS = [
     # Properties/C10_Session.lean: several evaluations on one forecast object (cached mean rates threaded through)
     "CatEvals.tests_with_mean_rates", "CatEvals.ensureRates_coherent", "CatEvals.evalStep_history_free",
     "CatEvals.session_history_free", "CatEvals.fresh_forecast_coherent",
+    # Properties/C10_Full.lean: the resampling step of MLL_magnitude_test(full_calculation=True)
+    "CatEvals.full_count_eq", "CatEvals.full_count_conserved", "CatEvals.full_loses_event",
+    "CatEvals.full_resample_is_bincount", "CatEvals.full_never_from_empty_bin", "CatEvals.full_identity_draw",
+    "CatEvals.mll_full_stat_eq_doc", "CatEvals.histBin_lt", "CatEvals.alignedOK_spec",
+    # Properties/C10_Findings.lean: the two parked genuine-defect candidates characterised on the faithful model
+    "CatEvals.finding_A_mtest_all_below", "CatEvals.finding_A_reports_perfect_score", "CatEvals.finding_A_rmtest_all_below",
+    "CatEvals.quantiles_all_tied", "CatEvals.stale_cache_result", "CatEvals.stale_cache_not_coherent",
 ]
 TRUSTED = ["Lean 4.33 kernel", "axioms: propext, Classical.choice, Quot.sound at most",
            "Real.log / an abstract loggamma stand for numpy.log, numpy.log10 (= log/log 10) and scipy.special.loggamma; "
@@ -56,7 +70,8 @@ TRUSTED = ["Lean 4.33 kernel", "axioms: propext, Classical.choice, Quot.sound at
            "C01/C02/C03 lookups: an event generated strictly inside cell i and magnitude bin k is gridded to (i, k) "
            "(the harness checks the resulting mean rates against its own exact recount)",
            "numpy.random.choice / numpy.histogram: the draws are recorded by wrapping numpy.random.choice in the harness "
-           "process and are an input of the model",
+           "process and are an input of the test-level model; the resampling step that produces them is modelled for all three "
+           "variants with the generator's outputs (uniform numbers / integers of the legacy RandomState) as input",
            "scipy.stats.kstest p-value (not modelled)",
            "harness/c10.py generators, oracle and comparison; driver parsing (Drive/C10.lean, Proto.lean)"]
 RULE = ("catalog forecasts of 1..30 synthetic catalogs (each empty with a per-case probability), built in memory (with/without "
@@ -127,25 +142,73 @@ def quiet():
 
 @contextlib.contextmanager
 def record_choice(rec):
-    """record what numpy.random.choice returns (the harness process only; /repo is untouched)"""
+    """record what the legacy numpy random functions draw (the harness process only; /repo is untouched).
+
+    `numpy.random.choice(a, size, replace, p)` IS `a[numpy.random.choice(len(a), size, replace, p)]` (same use of the random
+    stream, same result): the wrapper draws the INDICES itself and records them together with `p` and the population
+    size, so that the recording does not depend on what the values of `a` mean (bin-centre magnitudes, bin indices, raw
+    magnitudes of the union, ...).  Each resampled catalog is one entry dict(idx, pop, p, values)."""
     orig = numpy.random.choice
+    orig_mn = numpy.random.multinomial
 
     def wrapped(a, size=None, replace=True, p=None):
-        r = orig(a, size=size, replace=replace, p=p)
-        arr = numpy.array(r, dtype=float)
-        if arr.ndim >= 2:          # all catalogs drawn in one call: one row per resampled catalog
-            rec.extend(row.ravel().tolist() for row in arr)
+        arr = numpy.asarray(a)
+        if arr.ndim == 0:
+            pop, pool = int(arr), None
         else:
-            rec.append(arr.ravel().tolist())
+            pop, pool = arr.shape[0], arr
+        idx = orig(pop, size=size, replace=replace, p=p)
+        ia = numpy.asarray(idx)
+        rows = ia.reshape(-1, ia.shape[-1]) if ia.ndim >= 2 else [ia.ravel()]
+        for row in rows:      # all catalogs drawn in one call: one row per resampled catalog
+            vals = None
+            if pool is not None and pool.ndim == 1 and pool.dtype.kind in "fiu":
+                vals = [float(x) for x in pool[row]]
+            rec.append(dict(idx=[int(x) for x in row], pop=pop, p=None if p is None else [float(x) for x in numpy.ravel(p)],
+                            values=vals))
+        return idx if pool is None else pool[idx]
+
+    def wrapped_mn(n, pvals, size=None):
+        # a resampled HISTOGRAM drawn directly (same law as choice + histogram): recorded as counts
+        r = orig_mn(n, pvals, size=size)
+        arr = numpy.array(r)
+        for row in (arr.reshape(-1, arr.shape[-1]) if arr.ndim >= 2 else [arr]):
+            rec.append(dict(hist=[int(x) for x in row]))
+        return r
+    # the uniform numbers / integers themselves, when a rewrite does the inverse-CDF search or the indexing by hand
+    saved = {name: getattr(numpy.random, name) for name in ("random_sample", "random", "rand", "ranf", "sample", "randint")}
+
+    def wrap_uniform(f):
+        def w(*a, **k):
+            r = f(*a, **k)
+            arr = numpy.asarray(r, dtype=float)
+            for row in (arr.reshape(-1, arr.shape[-1]) if arr.ndim >= 2 else [arr.ravel()]):
+                rec.append(dict(u=[float(x) for x in row]))
+            return r
+        return w
+
+    def wrapped_randint(low, high=None, size=None, dtype=int):
+        r = saved["randint"](low, high, size, dtype)
+        arr = numpy.asarray(r)
+        lo, hi = (0, low) if high is None else (low, high)
+        for row in (arr.reshape(-1, arr.shape[-1]) if arr.ndim >= 2 else [arr.ravel()]):
+            rec.append(dict(idx=[int(x) - int(lo) for x in row], pop=int(hi) - int(lo), p=None, values=None) if numpy.ndim(lo) == 0
+                       and numpy.ndim(hi) == 0 else dict(unknown="randint with array bounds"))
         return r
     numpy.random.choice = wrapped
+    numpy.random.multinomial = wrapped_mn
+    for name in ("random_sample", "random", "rand", "ranf", "sample"):
+        setattr(numpy.random, name, wrap_uniform(saved[name]))
+    numpy.random.randint = wrapped_randint
     try:
         yield
     finally:
         numpy.random.choice = orig
+        numpy.random.multinomial = orig_mn
+        for name, f in saved.items():
+            setattr(numpy.random, name, f)
 
 
-# ----------------------------------------------------------------------------- case generation
 def gen_case(rng, tier):
     big = tier == "thorough"
     C = rng.choice([1, 1, 2, 2, 3, 4, 5, 6, 8, 10, 12, 16, 20, 25, 30, 40])
@@ -157,6 +220,12 @@ def gen_case(rng, tier):
     noisy = rng.random() < 0.12
     if noisy:
         K = rng.choice([5, 6, 6])
+    elif rng.random() < 0.2:
+        # many magnitude bins (and, below, several cells): numpy reduces arrays of 8 and more entries pairwise, a 2-D
+        # reduction row by row - equal histograms must still give EQUAL statistics
+        K = rng.choice([8, 9, 10, 12, 16, 20, 30, 50])
+        C = rng.choice([1, 2, 4, 8, 9, 10, 12])
+        J = min(J, rng.choice([2, 3, 5, 8, 10]))
     W = rng.randint(1, max(1, int(math.isqrt(C)) + 3))
     H = (C + W - 1) // W + rng.randint(0, 2)
     cells = rng.sample([(ix, iy) for ix in range(W) for iy in range(H)], C)
@@ -187,12 +256,20 @@ def gen_case(rng, tier):
             sims.append([])
         else:
             sims.append(draw_events(rng.randint(1, nmax), sampled, cw))
+    if J >= 2 and rng.random() < 0.25:
+        # synthetic catalogs IDENTICAL to each other (same events in another order): their statistics must be equal
+        ne = [j for j in range(J) if sims[j]]
+        if ne:
+            j1 = rng.choice(ne)
+            for j2 in rng.sample([j for j in range(J) if j != j1], rng.randint(1, min(2, J - 1))):
+                sims[j2] = list(sims[j1])
+                rng.shuffle(sims[j2])
     all_empty_forecast = all(len(s) == 0 for s in sims)
     if all_empty_forecast and rng.random() < 0.85:
         sims[rng.randrange(J)] = draw_events(rng.randint(1, nmax), sampled, cw)
         all_empty_forecast = False
     unsampled = [c for c in range(C) if c not in sampled]
-    kind = rng.choice(["empty", "single", "unsampled-all", "unsampled-some", "many", "copy", "generic", "generic"])
+    kind = rng.choice(["empty", "single", "unsampled-all", "unsampled-some", "many", "copy", "copy", "generic", "generic"])
     if kind in ("unsampled-all", "unsampled-some") and not unsampled:
         kind = "generic"
     if kind == "empty":
@@ -221,6 +298,8 @@ def gen_case(rng, tier):
                 seed=rng.choice([0, 1, 2, 12345, rng.randrange(2 ** 31)]), both_modes=rng.random() < 0.3)
     if noisy:
         case["noisy_edges"] = True
+    if rng.random() < 0.25:
+        case["obs_region"] = "copy"
     # default arguments of the tests: verbose=True (progress lines of N / S / M / PL) and seed=None (the resampled tests
     # then continue the global numpy stream, which the harness seeds itself with `seed` right before the call)
     case["verbose"] = rng.random() < 0.25
@@ -508,6 +587,11 @@ def make_observation(case, region, origins, mags):
             c, fx, fy, drop = e
             rows.append((float(origins[c][0]) + case["dh"] * fx, float(origins[c][1]) + case["dh"] * fy, float(mags[0]) - drop))
     data = [(str(i), 1000 * (i + 1), lat, lon, 5.0, mag) for i, (lon, lat, mag) in enumerate(rows)]
+    if case.get("obs_region") == "copy":
+        # an EQUAL region that is another object (the observation was gridded by the caller with his own copy of the
+        # region): nothing in the property depends on object identity
+        import copy
+        region = copy.deepcopy(region)
     return CSEPCatalog(data=data, region=region)
 
 
@@ -567,7 +651,7 @@ def canon_result(r):
     q = r.quantile
     if q[0] is None and q[1] is None:
         qq = "none"
-    elif isinstance(q[0], int) and isinstance(q[1], int) and q[0] == -1 and q[1] == -1:
+    elif q[0] is not None and q[1] is not None and q[0] == -1 and q[1] == -1:
         qq = "sentinel"
     else:
         qq = [None if q[0] is None else float(q[0]), None if q[1] is None else float(q[1])]
@@ -575,9 +659,10 @@ def canon_result(r):
 
 
 def read_rates(fc):
-    """the forecast's cached mean gridded rates as plain numbers (None when not computed); never raises"""
+    """the forecast's cached mean gridded rates as plain numbers (None when not computed or when the forecast has no
+    `expected_rates` attribute any more: where the rates are kept is incidental); never raises"""
     try:
-        er = fc.expected_rates
+        er = getattr(fc, "expected_rates", None)
         if er is None:
             return None
         return dict(spatial=[float(x) for x in er.spatial_counts()], mag=[float(x) for x in er.magnitude_counts()],
@@ -681,7 +766,54 @@ def run_impl(case, mode, tmpdir):
     return segs, mags
 
 
-def hist_of_draw(values, mags, K):
+class Uninterpretable(Exception):
+    """the harness cannot tell which magnitude bins a recorded draw stands for (never a verdict)"""
+
+
+def hist_of_draw(d, mags, K, lam=None, union=None):
+    """magnitude histogram of one recorded resampled catalog, independent of HOW the implementation phrases the draw:
+    * drawn with probabilities over the K magnitude bins (`p` of length K, population K): the INDICES are the bins,
+      whatever the values of `a` were (bin centres, bin numbers, edges);
+    * drawn uniformly from a population of numbers (full calculation: the union's raw magnitudes): the drawn VALUES are
+      binned as numpy.histogram bins them (raw comparison with the raw edges, open top);
+    * drawn as a histogram (numpy.random.multinomial): the counts.
+    Anything else raises Uninterpretable."""
+    if "hist" in d:
+        h = list(d["hist"])
+        if len(h) != K:
+            raise Uninterpretable(f"resampled histogram of {len(h)} bins for {K} magnitude bins")
+        return h
+    if "unknown" in d:
+        raise Uninterpretable(d["unknown"])
+    if "u" in d:
+        # uniform numbers, searched by hand in the cumulative probabilities of the union histogram (what the legacy
+        # numpy.random.choice does internally): bins through the probabilities; a number within 1e-9 of a step is ambiguous
+        if not union or sum(union) == 0 or len(union) != K:
+            raise Uninterpretable("uniform numbers without a union histogram")
+        cdf = numpy.cumsum(numpy.array(union, dtype=float) / float(sum(union)))
+        cdf /= cdf[-1]
+        u = numpy.array(d["u"], dtype=float)
+        if u.size and (numpy.min(numpy.abs(u[:, None] - cdf[None, :])) < 1e-9 or u.min() < 0 or u.max() >= 1):
+            raise Uninterpretable("a uniform number next to a step of the cumulative probabilities")
+        h = [0] * K
+        for i in numpy.searchsorted(cdf, u, side="right"):
+            h[int(i)] += 1
+        return h
+    if d.get("p") is not None:
+        if d["pop"] != K or len(d["p"]) != K:
+            raise Uninterpretable(f"probabilities over {d['pop']} items for {K} magnitude bins")
+        h = [0] * K
+        for i in d["idx"]:
+            h[i] += 1
+        return h
+    values = d.get("values")
+    if values is None:
+        # indices into a population that was not handed over: only the union's magnitudes in iteration order qualify
+        if lam is None or d["pop"] != len(lam):
+            raise Uninterpretable(f"uniform draw of indices below {d['pop']} (the union has {None if lam is None else len(lam)} events)")
+        values = [lam[i] for i in d["idx"]]
+    if any(not (v >= float(mags[0])) for v in values):
+        raise Uninterpretable("a drawn value lies below the first magnitude edge")
     h = [0] * K
     for v in values:
         k = max(i for i in range(K) if float(mags[i]) <= v)
@@ -776,24 +908,15 @@ def oracle(case, out, draws_h, rates):
         if Nobs == 0 and Nout > 0:
             # sub-class "obs-all-below-min-magnitude" (only generated once it has left AWAITING_DECISION; S / PL are
             # not run on such observations): the magnitude statistics are undefined and must be signalled
-            if r is None or r["status"] != "not-valid" or r["quantile"] != "none" or r["dist"] or \
-                    not (r["observed"] is None or math.isnan(r["observed"])):
+            if not signalled(r):
                 bad.append(f"{t}: no observed event inside the magnitude range ({Nout} below it) is not signalled: {r}")
             continue
         # ---------------------------------------------------------------- empty observation
         if Nobs == 0:
-            if t == "pl":
-                if r is not None:
-                    bad.append("pl: empty observation must give no result")
-            elif t == "s":
-                if r is None or r["status"] != "not-valid" or r["quantile"] != "sentinel":
-                    bad.append(f"s: empty observation not signalled: {r}")
-                elif r["observed"] is not None and not math.isnan(r["observed"]):
-                    bad.append(f"s: empty observation with numeric statistic {r['observed']}")
-            else:
-                if r is None or r["status"] != "not-valid" or r["quantile"] != "none" or r["observed"] is not None \
-                        or r["dist"]:
-                    bad.append(f"{t}: empty observation not signalled: {r}")
+            # "status 'not-valid' or no result ... instead of a numeric quantile": any explicit signal is accepted
+            # (today: PL no result; S not-valid + (-1,-1) + nan; M-type not-valid + (None, None) + None)
+            if not signalled(r):
+                bad.append(f"{t}: empty observation not signalled (status not-valid or no result, no numeric quantile): {r}")
             continue
         # ---------------------------------------------------------------- spatial / pseudo-likelihood
         if t in ("s", "pl"):
@@ -806,10 +929,9 @@ def oracle(case, out, draws_h, rates):
                           for g, n in zip(G, Nj) if n > 0]
                 if n_kept == 0:
                     # no observed event in a sampled cell: the statistic is undefined
-                    if r is None or r["status"] != "not-valid" or r["quantile"] != "sentinel" or \
-                            not (r["observed"] is None or math.isnan(r["observed"])):
-                        bad.append(f"s: no observed event in a sampled cell, expected not-valid/sentinel/nan: {r}")
-                    else:
+                    if not signalled(r):
+                        bad.append(f"s: no observed event in a sampled cell is not signalled: {r}")
+                    elif r is not None and r["dist"]:
                         chk_dist("s", r["dist"], want_d)
                     continue
                 want_o = math.fsum(sp_o[i] * math.log(rate[i] / tot) for i in kept if sp_o[i]) / n_kept
@@ -817,8 +939,8 @@ def oracle(case, out, draws_h, rates):
                 want_d = [math.fsum(sum(g[i]) * math.log(rate[i]) for i in range(C) if sum(g[i])) - float(Nbar)
                           for g in G]
                 if n_kept == 0:
-                    if r is not None:
-                        bad.append(f"pl: no observed event in a sampled cell must give no result: {r}")
+                    if not signalled(r):
+                        bad.append(f"pl: no observed event in a sampled cell is not signalled: {r}")
                     continue
                 want_o = math.fsum(sp_o[i] * math.log(rate[i]) for i in kept if sp_o[i]) - float(Nbar)
             if r is None:
@@ -856,6 +978,8 @@ def oracle(case, out, draws_h, rates):
                 for g, n in zip(G, Nj):
                     if n > 0:
                         want_d.append(D([sum(g[i][k] for i in range(C)) for k in range(K)], n))
+            elif t in case.get("_unobserved", ()):
+                want_d = None
             else:
                 want_d = [D(h, Nobs) for h in draws_h[t]]
                 if len(draws_h[t]) != J or any(sum(h) != Nobs for h in draws_h[t]):
@@ -872,13 +996,17 @@ def oracle(case, out, draws_h, rates):
                 cm = [ci + 1 for ci in c]
                 return 2 * (ll([a + b for a, b in zip(um, cm)]) - ll(um) - ll(cm))
             want_o = MLL(mg_o)
-            want_d = [MLL(h) for h in draws_h[t]]
-            if len(draws_h[t]) != J or any(sum(h) != Nobs for h in draws_h[t]):
+            want_d = None if t in case.get("_unobserved", ()) else [MLL(h) for h in draws_h[t]]
+            if want_d is not None and (len(draws_h[t]) != J or any(sum(h) != Nobs for h in draws_h[t])):
                 bad.append(f"{t}: expected {J} resampled catalogs of {Nobs} events, got "
                            f"{[sum(h) for h in draws_h[t]]}")
         if not close(r["observed"], want_o):
             bad.append(f"{t}: observed {r['observed']!r} != documented {want_o!r}")
-        chk_dist(t, r["dist"], want_d)
+        if want_d is None:
+            if len(r["dist"]) != J:
+                bad.append(f"{t}: distribution length {len(r['dist'])} != {J} resampled catalogs")
+        else:
+            chk_dist(t, r["dist"], want_d)
         chk_quant(t, r)
         if t in ("rm", "mll", "mllfull") and draws_h[t] and not (t == "mllfull" and case.get("noisy_edges")):
             # (full_calculation draws raw magnitudes and numpy.histogram compares them with the raw edges: an event inside
@@ -896,6 +1024,92 @@ def oracle(case, out, draws_h, rates):
                 if tail < 1e-12:
                     bad.append(f"{t}: {T} of {M} resampled events in bin {k}, union probability {mg_u[k]}/{NU}: "
                                f"binomial tail {tail:.1e} (not resampled from the union histogram)")
+    return bad
+
+
+def tie_checks(case, out, draws_h):
+    """exact tie semantics (C09) on the RETURNED statistics: every documented statistic is a function of the catalog's
+    gridded counts, so a synthetic (or resampled) catalog with the same counts as the observation must get the SAME float
+    as the observed statistic, and catalogs with equal counts the same float among themselves - otherwise the catalog does
+    not count on both sides of the quantile as #{D_j >= D_obs}/J, #{D_j <= D_obs}/J demand (a statistic that is computed along
+    two code paths which round differently breaks this although each value is right to rounding)."""
+    bad = []
+    C, K = case["C"], case["K"]
+    G = [grid_of(s, C, K) for s in case["sims"]]
+    O = grid_of(case["obs"], C, K)
+    if not case["obs"]:
+        return bad
+    sp = lambda g: tuple(sum(g[i]) for i in range(C))
+    mg = lambda g: tuple(sum(g[i][k] for i in range(C)) for k in range(K))
+    for t, r in out.items():
+        if not isinstance(r, dict) or t == "n" or r["status"] not in ("normal", "undersampled") or r["observed"] is None:
+            continue
+        if t in ("s", "pl"):
+            if r["status"] != "normal":
+                continue                     # the undersampled statistic is computed over the sampled cells only
+            keys = [sp(g) for g in G]
+            okey = sp(O)
+            idx = [j for j in range(len(G)) if t == "pl" or sum(keys[j]) > 0]
+        elif t == "m":
+            keys = [mg(g) for g in G]
+            okey = mg(O)
+            idx = [j for j in range(len(G)) if sum(keys[j]) > 0]
+        else:
+            if t in case.get("_unobserved", ()) or not draws_h.get(t) or len(draws_h[t]) != len(r["dist"]):
+                continue
+            keys = [tuple(h) for h in draws_h[t]]
+            okey = mg(O)
+            idx = list(range(len(keys)))
+            if t == "rm":
+                idx = [j for j in idx if sum(keys[j]) > 0]
+        if len(idx) != len(r["dist"]):
+            continue                         # reported by the oracle as a wrong distribution length
+        first = {}
+        for pos, j in enumerate(idx):
+            d = r["dist"][pos]
+            if keys[j] == okey and d != r["observed"]:
+                bad.append(f"{t}: catalog {j} has the same gridded counts as the observation but its statistic {d!r} is not "
+                           f"the observed statistic {r['observed']!r}: it does not tie, the quantile loses it on one side")
+                break
+            if keys[j] in first and first[keys[j]][1] != d:
+                bad.append(f"{t}: catalogs {first[keys[j]][0]} and {j} have the same gridded counts but the statistics "
+                           f"{first[keys[j]][1]!r} and {d!r}")
+                break
+            first.setdefault(keys[j], (j, d))
+    return bad
+
+
+def draws_independent(case, draws, draws_h):
+    """the J resampled catalogs of one test are J draws, not copies of one: two recorded value SEQUENCES that are
+    identical although the probability of that, (sum_k p_k^2)^N for independent resampling from the union histogram, is
+    below 1e-12, are reported (a generator re-seeded inside the loop, one draw reused for every catalog, ...)"""
+    bad = []
+    NU = sum(len(s) for s in case["sims"])
+    if NU == 0:
+        return bad
+    mg_u = [0] * case["K"]
+    for sm in case["sims"]:
+        for e in sm:
+            mg_u[e[1]] += 1
+    coll = sum((u / NU) ** 2 for u in mg_u)                 # P(two independent draws of ONE event fall in the same bin)
+    for t in ("rm", "mll", "mllfull"):
+        seqs = draws.get(t) or []
+        hs = draws_h.get(t) or []
+        if len(seqs) < 2 or len(hs) != len(seqs):
+            continue
+        if any("idx" not in q for q in seqs):
+            continue
+        N = len(seqs[0]["idx"])
+        if N == 0 or coll >= 1.0 or N * math.log(coll) > math.log(1e-12):
+            continue
+        same = sum(1 for a, b in zip(hs, hs[1:]) if a == b and len(a) and sum(a) == N)
+        # identical HISTOGRAMS of neighbouring draws: each pair has probability <= P(same sequence up to order) ... use the
+        # exact sequences for the verdict (probability coll^N each), histograms only as the cheap pre-filter
+        if same:
+            ident = sum(1 for a, b in zip(seqs, seqs[1:]) if a["idx"] == b["idx"])
+            if ident:
+                bad.append(f"{t}: {ident} pair(s) of consecutive resampled catalogs are the SAME sequence of {N} values "
+                           f"(probability {coll:.3g}^{N} each for independent draws): the resampled catalogs are not independent draws")
     return bad
 
 
@@ -933,8 +1147,22 @@ def parse_model(s):
     return dict(status=st, observed=obs, quantile=qq, dist=dist)
 
 
+def signalled(r):
+    """the property's "signal it explicitly (status 'not-valid' or no result) instead of a numeric quantile": no result at
+    all, or a result with status 'not-valid' whose quantile is not a pair of probabilities ((None, None) or the sentinel
+    (-1, -1)) and whose observed statistic is None / nan.  WHICH of these forms a test uses is incidental."""
+    if r is None:
+        return True
+    if isinstance(r, tuple):
+        return False
+    return r["status"] == "not-valid" and r["quantile"] in ("none", "sentinel") and \
+        (r["observed"] is None or (isinstance(r["observed"], float) and math.isnan(r["observed"])))
+
+
 def same_result(impl, model):
     """property-level equality of an implementation result and a model result"""
+    if signalled(impl) and signalled(model):
+        return True          # both signal an undefined statistic; the form of the signal is incidental
     if impl is None or model is None:
         return impl is None and model is None
     if impl["status"] != model["status"]:
@@ -1026,6 +1254,33 @@ def queue_resample(run, drv, pending, case, out, draws_h, mags):
         pending.append(("resample", dict(case, test=t), i, draws_h[t]))
 
 
+def queue_resample_full(run, drv, pending, case, out, draws_h, mags):
+    """Model of the resampling step of MLL_magnitude_test(full_calculation=True) (Model/ResampleFull.lean): Lambda_u = the
+    raw magnitudes of the synthetic catalogs in iteration order, each with the bin the gridded counts put it in;
+    numpy.random.choice(Lambda_u, size=N_obs) = Lambda_u[randint(0, len, N_obs)] of the legacy global RandomState after
+    numpy.random.seed(seed), J times.  STATISTIC (identical histograms), plus the decidable premise alignedOK."""
+    K, J = case["K"], len(case["sims"])
+    Nobs = len(case["obs"])
+    NU = sum(len(s) for s in case["sims"])
+    r = out.get("mllfull")
+    if Nobs == 0 or NU == 0 or J * Nobs > 300 or NU > 400 or not isinstance(r, dict) or len(draws_h.get("mllfull", [])) != J:
+        return
+    lam = []
+    for sm in case["sims"]:
+        for e in sm:
+            m = Fraction(float(raw_magnitude(case, e)))
+            lam.append(f"{m.numerator}/{m.denominator}@{e[1]}")
+    rs = numpy.random.RandomState(case["seed"])
+    idx = [rs.randint(0, NU, size=Nobs) for _ in range(J)]
+    mtxt = ",".join(f"{Fraction(float(m)).numerator}/{Fraction(float(m)).denominator}" for m in mags)
+    i = drv.ask(f"c10_resample_full {mtxt} {','.join(lam)} {';'.join(','.join(map(str, row)) for row in idx)}")
+    mg_u = [0] * K
+    for sm in case["sims"]:
+        for e in sm:
+            mg_u[e[1]] += 1
+    pending.append(("resample_full", dict(case, test="mllfull"), i, draws_h["mllfull"], mg_u))
+
+
 # ----------------------------------------------------------------------------- calibration test
 def ks_exact(qs):
     s = sorted(qs)
@@ -1073,9 +1328,37 @@ def check_calibration(run, drv, pending, case, raw):
 
 # ----------------------------------------------------------------------------- one case
 def seg_equal(a, b):
+    """the same result from an in-memory and a streamed forecast, to rounding (the order in which a storage mode
+    accumulates floats is incidental)"""
     if isinstance(a, tuple) or isinstance(b, tuple):
         return isinstance(a, tuple) and isinstance(b, tuple) and a[1] == b[1]
-    return repr(a) == repr(b)
+    if a is None or b is None:
+        return a is None and b is None
+    if "observed" not in a or not isinstance(a.get("dist"), list):
+        return repr(a) == repr(b)
+    if a["status"] != b["status"] or len(a["dist"]) != len(b["dist"]):
+        return False
+    def cl(x, y):
+        if isinstance(x, (int, float)) and isinstance(y, (int, float)):
+            return close(float(x), float(y))
+        return x == y
+    if not cl(a["observed"], b["observed"]) or not all(cl(x, y) for x, y in zip(a["dist"], b["dist"])):
+        return False
+    qa, qb = a["quantile"], b["quantile"]
+    if isinstance(qa, str) or isinstance(qb, str):
+        return qa == qb
+    if a["observed"] is None or isinstance(a["observed"], int):
+        return list(qa) == list(qb)
+    band = sum(1 for x in a["dist"] if close(x, a["observed"], 1e-8))     # near ties may fall on either side
+    n = max(1, len(a["dist"]))
+    return all((x is None and y is None) or (x is not None and y is not None and abs(x - y) * n <= band + 1e-6)
+               for x, y in zip(qa, qb))
+
+
+def raised_inside_csep(e):
+    """True when a frame of the csep package is on the exception's traceback (pyCSEP raised, not the harness)"""
+    import traceback
+    return any(os.sep + "csep" + os.sep in fr.filename for fr in traceback.extract_tb(e.__traceback__))
 
 
 def check_case(run, drv, pending, case):
@@ -1086,6 +1369,15 @@ def check_case(run, drv, pending, case):
         if case.get("both_modes") and not (case.get("premut") and case["mode"] == "stream-nostore"):
             m2 = "stream-store" if case["mode"].startswith("memory") else "memory"
             other = run_impl(case, m2, tmpdir)[0]
+    except Exception as e:
+        # building the region / catalogs / forecast, the in-place changes and the passes are calls of the library on inputs
+        # inside the quantifier: an exception raised there is a deviation with this case as replay, not a harness error
+        if not raised_inside_csep(e):
+            raise
+        run.case(dict(C=case["C"], K=case["K"], J=len(case["sims"]), kind=case["kind"], mode=case["mode"]), None)
+        run.oracle_failure({k: v for k, v in case.items()}, f"pyCSEP raised {type(e).__name__}: {e} while the case was set up / run "
+                                                             f"(outside the per-test guards)")
+        return
     finally:
         shutil.rmtree(tmpdir, ignore_errors=True)
     full_case = case
@@ -1108,6 +1400,8 @@ def check_case(run, drv, pending, case):
              key if nontriv else None)
     run.count("obs:" + case["kind"])
     run.count("mode:" + case["mode"])
+    if case.get("obs_region"):
+        run.count("obs-region:equal-copy")
     if case.get("noisy_edges"):
         run.count("noisy-magnitude-edges")
     if case.get("fc_filter"):
@@ -1139,13 +1433,25 @@ def check_case(run, drv, pending, case):
             if isinstance(r, tuple) and K == 1 and r[1] == "IndexError" and view["obs"]:
                 run.oracle_failure(slim, f"{t}: IndexError on a region with a single magnitude bin",
                                    signature="resampled-magnitude-test:single-magnitude-bin")
-        draws_h = {}
+        draws_h, uninterp = {}, set()
+        lam_view = [float(raw_magnitude(view, e)) for sm in view["sims"] for e in sm]
+        mg_view = [sum(1 for sm in view["sims"] for e in sm if e[1] == k) for k in range(K)]
+        for t in ("rm", "mll", "mllfull"):
+            try:
+                draws_h[t] = [hist_of_draw(v, mags, K, lam_view, mg_view) for v in sg["draws"].get(t, [])]
+            except Exception as e:      # the harness cannot interpret the recording: NEVER a verdict
+                draws_h[t] = []
+                uninterp.add(t)
+                run.count("draws-uninterpretable:" + t)
+        # a rewrite may draw through another generator object (numpy.random.default_rng, a RandomState instance): the
+        # resampled catalogs are then not observable here; the deterministic parts of the result are still judged
+        unobs = set(t for t in ("rm", "mll", "mllfull") if isinstance(out.get(t), dict) and out[t]["dist"]
+                    and not draws_h.get(t))
+        for t in unobs - uninterp:
+            run.count("draws-not-observable:" + t)
+        view = dict(view, _unobserved=sorted(unobs))
         try:
-            draws_h = {t: [hist_of_draw(v, mags, K) for v in sg["draws"].get(t, [])] for t in ("rm", "mll", "mllfull")}
-        except Exception as e:      # a resampled value outside every magnitude bin
-            run.oracle_failure(slim, where + f"recorded resampled magnitudes cannot be binned: {type(e).__name__}: {e}")
-        try:
-            msgs = oracle(view, out, draws_h, None)
+            msgs = oracle(view, out, draws_h, None) + draws_independent(view, sg["draws"], draws_h) + tie_checks(view, out, draws_h)
             # the forecast's cached mean rates after EVERY test of the step (a test that leaves a scale factor or a
             # divided array behind shows here and in the next test)
             seen = set()
@@ -1162,6 +1468,11 @@ def check_case(run, drv, pending, case):
         if other is not None and k < len(other):
             for t in out:
                 a, b = out[t], other[k]["out"].get(t)
+                if t in ("rm", "mll", "mllfull") and isinstance(a, dict) and isinstance(b, dict) and \
+                        (not full_case.get("seed_arg", True) or t in unobs):
+                    # called without seed (or drawing through a generator the harness does not see): only the
+                    # deterministic part of the result is comparable between the two storage modes
+                    a, b = dict(a, dist=[], quantile="-"), dict(b, dist=[], quantile="-")
                 if not seg_equal(a, b):
                     run.oracle_failure(slim, where + f"{t}: in-memory and streamed forecasts give different results: {a} vs {b}")
         if big:
@@ -1174,6 +1485,7 @@ def check_case(run, drv, pending, case):
             idx = queue_model(drv, view, draws_h, only=set(out))
             pending.append(("case", view, idx, out, last_rates, slim))
             queue_resample(run, drv, pending, view, out, draws_h, mags)
+            queue_resample_full(run, drv, pending, view, out, draws_h, mags)
         except Exception as e:
             run.oracle_failure(slim, where + f"outputs cannot be handed to the model: {type(e).__name__}: {e}")
         if sg["who"] == "A":
@@ -1204,6 +1516,20 @@ def flush(run, drv, pending):
             if ok != "true":
                 # a bin centre that numpy.histogram counts in ANOTHER bin: the resampled catalog would differ from the draw
                 run.mismatch(dict(case, op="c10_resample"), hs, res[i])
+            continue
+        if item[0] == "resample_full":
+            _, case, i, hs, mg_u = item
+            rf = run.extra.setdefault("resample_full_layer", dict(
+                note="model of Lambda_u[randint] + numpy.histogram (Model/ResampleFull.lean) on the regenerated integers "
+                     "against the recorded draws of MLL_magnitude_test(full_calculation=True) (statistic); aligned = "
+                     "decidable premise of full_resample_is_bincount (false on noisy-edge cases with band events)",
+                cases=0, identical=0, aligned=0, union_equal=0))
+            body, ok, un = res[i].split("|")
+            model = [[int(x) for x in h.split(",")] for h in body.split(";")] if body else []
+            rf["cases"] += 1
+            rf["identical"] += int(model == hs)
+            rf["aligned"] += int(ok == "true")
+            rf["union_equal"] += int([int(x) for x in un.split(",")] == mg_u)
             continue
         if item[0] == "calib":
             _, case, i, j, got, ks = item
@@ -1248,6 +1574,8 @@ def flush(run, drv, pending):
                 continue   # exceptions are judged by the oracle
             if t in ("rm", "mll", "mllfull") and NU == 0:
                 continue
+            if t in case.get("_unobserved", ()):
+                continue   # the draws were not observable: the model has no input for the distribution
             m = parse_model(res[idx[t]])
             if not same_result(r, m):
                 run.mismatch(dict(replay_case, test=t), r, res[idx[t]])
